@@ -2,15 +2,17 @@
 import json
 import os
 
-from .env import VERIF
+from .env import OTHER_TREE, VERIF, WORK
 
 
 def write(prop, tier, seed, level, coverage, wall, violations, assumptions=()):
-    os.makedirs(os.path.join(VERIF, "evidence"), exist_ok=True)
+    # evidence/ describes runs against /repo itself; runs against another tree (VERIF_REPO) go elsewhere
+    edir = os.path.join(WORK, "evidence") if OTHER_TREE else os.path.join(VERIF, "evidence")
+    os.makedirs(edir, exist_ok=True)
     doc = {"property_id": prop, "tier": tier, "seed": int(seed), "level": level,
            "coverage": coverage, "assumptions": list(assumptions), "wall_s": round(float(wall), 2),
            "violations": int(violations)}
-    path = os.path.join(VERIF, "evidence", f"{prop}.json")
+    path = os.path.join(edir, f"{prop}.json")
     with open(path + ".tmp", "w") as fh:
         json.dump(doc, fh, indent=1, default=str)
     os.replace(path + ".tmp", path)
